@@ -18,8 +18,11 @@ type Bridge struct {
 }
 
 // ServeTCP accepts exactly one connection.
-func ServeTCP(c *refsmtp.Conn) (*Bridge, error) {
-	ln, err := net.Listen("tcp", "127.0.0.1:0")
+func ServeTCP(c *refsmtp.Conn) (*Bridge, error) { return ServeTCPAt(c, "127.0.0.1:0") }
+
+// ServeTCPAt is ServeTCP on a given listen address.
+func ServeTCPAt(c *refsmtp.Conn, addr string) (*Bridge, error) {
+	ln, err := net.Listen("tcp", addr)
 	if err != nil {
 		return nil, err
 	}
